@@ -82,7 +82,7 @@ def build_tail(case, g, dt):
     up = dn.up(dt)
     U, Gm, W = gens.orth(n0, g, up), gens.orth(n1, g, up), gens.orth(n2, g, up)
     h = gens.orth(n1, g, up)[:, 0]
-    delta = 10.0 ** rr.uniform(-3, -1.5) if dt != torch.float32 else 10.0 ** rr.uniform(-2, -1.3)
+    delta = 10.0 ** rr.uniform(-3, -1.5) if dt not in (torch.float32, torch.complex64) else 10.0 ** rr.uniform(-2, -1.3)
     b = delta * rr.uniform(0.8, 2.5)
     c0 = torch.zeros((1, n0, r + 1), dtype=up)
     c0[0] = U[:, :r + 1]
@@ -122,7 +122,7 @@ def build(case, ctx, g):
         return gens.make_tt(N, Rb, dt, 'gauss', g, M=M)
     if kind == 'graded':
         scales = [10.0 ** rr.uniform(-9, 8) for _ in range(d)]
-        if dt == torch.float32:
+        if dt in (torch.float32, torch.complex64):
             scales = [10.0 ** rr.uniform(-3, 3) for _ in range(d)]
         return gens.make_tt(N, R, dt, 'gauss', g, M=M, scales=scales)
     if kind == 'inflated':
